@@ -1664,6 +1664,7 @@ impl ObjectWrite for Action {
         match self {
             Action::Goto(dest) => {
                 let mut dict = Dictionary::new();
+                dict.insert("S", Name::from("GoTo"));
                 dict.insert("D", dest.to_primitive(update)?);
                 Ok(Primitive::Dictionary(dict))
             }
